@@ -441,13 +441,25 @@ func cdLimitMemory() {
 	_ = syscall.Setrlimit(syscall.RLIMIT_AS, &lim)
 }
 
+// cdErrText names an error for the trace: the truncation error is recognised by identity (its wording is not
+// part of the property), everything else by its text.
+func cdErrText(err error) string {
+	if err == ErrInsufficientData {
+		return "insufficient"
+	}
+	if s := err.Error(); s != "" {
+		return s
+	}
+	return "error without text" // "" means "no error" in the trace
+}
+
 func (p *cdProg) decode(pd packetDecoder) error {
 	rd := pd.(*realDecoder)
 	for i := range p.ops {
 		c, err := p.get(pd, i)
 		c.Off = rd.off
 		if err != nil {
-			c.Err = err.Error()
+			c.Err = cdErrText(err)
 			c.N, c.V, c.B = 0, [][4]int{}, []int{}
 		}
 		p.dec = append(p.dec, c)
@@ -480,13 +492,13 @@ func cdRunProg(rec *vRec, line string) (encErr bool) {
 	eerr := ""
 	epanic := false
 	if err := cdSafe(func() (e error) { raw, e = encode(p, nil); return }, &epanic); err != nil {
-		eerr = err.Error()
+		eerr = cdErrText(err)
 	}
 	derr := ""
 	dend := 0
 	if eerr == "" {
 		if err := cdSafe(func() error { return decode(raw, p) }, nil); err != nil {
-			derr = err.Error()
+			derr = cdErrText(err)
 		}
 		if n := len(p.dec); n > 0 {
 			dend = p.dec[n-1].Off
